@@ -11,6 +11,20 @@ NORMALISATIONS applied before any shape is matched (translator/c14_norm.py; gene
   * a call of a helper defined in the same module / class (`h(..)`, `self.h(..)`, `Charge.h(..)`, `cls.h(..)`,
     static / class / instance method) whose body is itself straight-line is replaced by its returned expression with
     parameters bound to the arguments (positional / keyword / literal defaults); other calls are left for the matcher
+  * call shapes (round 2d): `f(*(a, b))` == `f(a, b)`; `f(**{"k": v})` / `f(**dict(k=v))` (also through a local bound
+    to the display; a display that is updated in place fails closed) == `f(k=v)`; `functools.partial(g, a, k=v)(b, m=w)`
+    (recognised by its import, through any local name) == `g(a, b, k=v, m=w)`
+  * create_charges (round 2d): the column mapping may be a dict display, `dict(k=v, ..)` or
+    `dict(zip(KEYS, VALUES[, strict=..]))` with tuple / list displays of equal length; names in it are resolved through
+    single-assignment locals and module-level literal constants (the key tuple may live at module level); names bound
+    by a match capture, walrus, loop, `with`, `except`, import, nested def are opaque
+  * records (round 2d): a module-level `class R(NamedTuple)` with only annotated fields: `R(a, b).first`, `R(a, b)[0]`,
+    `x, y = R(a, b)` stand for the constructor's arguments (positional / keyword / literal defaults)
+  * helpers in ANOTHER module of the package (round 2d): a call of a plain straight-line function imported (absolute,
+    relative, late import, re-exported by a package `__init__`) from a module of the same top-level package is
+    followed like a same-module helper, read in its own module (its constants, its helpers)
+  * object identity (round 2d): `self._array = A if c else B` is one binding per branch; `a or b` / `a and b` IS one of
+    its operands (no longer classified as a new object)
   * the mask recognises "the first / second index array" by what it COMPUTES (it translates to the same integral
     Gallina expression), not by its name, so it may be built before the `.astype(int)`, in named pieces, by a helper
   * the kernel: `enumerate`, `range(len(V))`, `range(0, len(V), 1)`, `range(V.size)`, `range(V.shape[0])`, manual
@@ -72,6 +86,22 @@ from .common import HEADER, body_no_doc, fail, find_func, parse
 
 CHARGE = "pyxel/data_structure/charge.py"
 GEOM = "pyxel/detectors/geometry.py"
+_REPO: list = [None]                      # set by translate(): where modules of the package are read from
+
+
+def _modname(rel: str) -> str:
+    return rel[:-3].replace("/", ".")
+
+
+def _loader(mod: str):
+    """`pkg.mod` -> (tree, is_package) read from the repository being translated, or None"""
+    rel = mod.replace(".", "/")
+    for cand, pkg in ((rel + ".py", False), (rel + "/__init__.py", True)):
+        try:
+            return parse(_REPO[0], cand), pkg
+        except Exception:
+            continue
+    return None
 
 PRELUDE = (HEADER +
            "From Coq Require Import ZArith QArith Qround List Bool.\n"
@@ -422,7 +452,7 @@ def _charge_sym(tree) -> Sym:
     cands = [n for n in ast.walk(tree) if isinstance(n, ast.ClassDef) and n.name == "Charge"]
     if len(cands) != 1:
         fail(None, "class Charge not found exactly once")
-    return Sym(tree, cands[0], keep=KEEP_CALLS)
+    return Sym(tree, cands[0], keep=KEEP_CALLS, modname=_modname(CHARGE), loader=_loader)
 
 
 ADD_AT = "__c14_add_at__"
@@ -539,7 +569,7 @@ def _centre_fn(tree, name: str, count_param: str, other_param: str, size_param: 
     params = [a.arg for a in fn.args.args + fn.args.kwonlyargs]
     if sorted(params) != sorted([count_param, other_param, size_param]):
         fail(fn, f"{name} parameters")
-    sym = Sym(tree)
+    sym = Sym(tree, modname=_modname(GEOM), loader=_loader)
 
     def poly(n):
         if isinstance(n, ast.Name):
@@ -723,44 +753,111 @@ def _array_to_df(tree, gtree) -> dict:
 
 
 def _create_charges(tree):
+    """`create_charges` must feed the columns number / position_ver / position_hor from their own parameters.
+
+    The column mapping may be written as a dict display, `dict(k=v, ..)` or `dict(zip(KEYS, VALUES[, strict=..]))` with
+    KEYS / VALUES tuple or list displays of the same length; every name in it is resolved through single-assignment
+    locals and module-level literal constants (so the key tuple may live at module level)."""
     fn = find_func(tree, "create_charges", "Charge")
     params = {a.arg for a in fn.args.args + fn.args.kwonlyargs + fn.args.posonlyargs}
-    # a local name bound exactly once, to a parameter, stands for that parameter
+    sx = _charge_sym(tree)
+    # a local name bound exactly once, by a plain (annotated) assignment, stands for the assigned expression;
+    # every other kind of binding (tuple target, op=, walrus, loop / comprehension / with / except / match capture /
+    # import / nested def / nested parameter) makes the name opaque
     binds: dict[str, list] = {}
+    plain: dict[int, ast.AST] = {}
     for n in ast.walk(fn):
         if isinstance(n, ast.Assign):
             for t in n.targets:
-                for e in ast.walk(t):
-                    if isinstance(e, ast.Name):
-                        binds.setdefault(e.id, []).append(n.value if t is e else None)
-        elif isinstance(n, (ast.AnnAssign, ast.AugAssign, ast.NamedExpr)) and isinstance(n.target, ast.Name):
-            binds.setdefault(n.target.id, []).append(n.value if isinstance(n, ast.AnnAssign) else None)
-        elif isinstance(n, (ast.For, ast.comprehension)):
-            for e in ast.walk(n.target):
-                if isinstance(e, ast.Name):
-                    binds.setdefault(e.id, []).append(None)
+                if isinstance(t, ast.Name):
+                    plain[id(t)] = n.value
+        elif isinstance(n, ast.AnnAssign) and isinstance(n.target, ast.Name) and n.value is not None:
+            plain[id(n.target)] = n.value
+    for n in ast.walk(fn):
+        if isinstance(n, ast.Name) and isinstance(n.ctx, (ast.Store, ast.Del)):
+            binds.setdefault(n.id, []).append(plain.get(id(n)))
+        elif isinstance(n, (ast.MatchAs, ast.MatchStar)) and n.name is not None:
+            binds.setdefault(n.name, []).append(None)
+        elif isinstance(n, ast.MatchMapping) and n.rest is not None:
+            binds.setdefault(n.rest, []).append(None)
+        elif isinstance(n, ast.ExceptHandler) and n.name is not None:
+            binds.setdefault(n.name, []).append(None)
+        elif isinstance(n, (ast.Import, ast.ImportFrom)):
+            for al in n.names:
+                binds.setdefault((al.asname or al.name).split(".")[0], []).append(None)
+        elif isinstance(n, (ast.FunctionDef, ast.AsyncFunctionDef, ast.ClassDef)) and n is not fn:
+            binds.setdefault(n.name, []).append(None)
+        elif isinstance(n, ast.arguments) and n is not fn.args:
+            for x in n.posonlyargs + n.args + n.kwonlyargs + [y for y in (n.vararg, n.kwarg) if y is not None]:
+                binds.setdefault(x.arg, []).append(None)
+        elif isinstance(n, (ast.Global, ast.Nonlocal)):
+            for name in n.names:
+                binds.setdefault(name, []).append(None)
 
-    def param_of(v):
-        for _ in range(5):
+    def resolve(v):
+        """the expression a name stands for (single-assignment local, module-level literal constant), else the node"""
+        for _ in range(8):
             if not isinstance(v, ast.Name):
-                return None
+                return v
             if v.id in binds:
                 if len(binds[v.id]) != 1 or binds[v.id][0] is None:
-                    return None
+                    return v
                 v = binds[v.id][0]
                 continue
-            return v.id if v.id in params else None
+            if v.id in params:
+                return v
+            if v.id in sx.consts and v.id not in sx.funcs:
+                v = sx.consts[v.id]
+                continue
+            return v
+        return v
+
+    def param_of(v):
+        v = resolve(v)
+        return v.id if isinstance(v, ast.Name) and v.id in params and v.id not in binds else None
+
+    def builtin(f, name):
+        return isinstance(f, ast.Name) and f.id == name and name not in binds and name not in sx.local_defs
+
+    def pairs(n):
+        """[(key node, value node)] of a column mapping expression, or None"""
+        if isinstance(n, ast.Dict):
+            if any(k is None for k in n.keys):
+                return [(None, None)]                                     # `**other` inside the display: opaque
+            return list(zip(n.keys, n.values))
+        if isinstance(n, ast.Call) and builtin(n.func, "dict"):
+            if not n.args and n.keywords and all(k.arg is not None for k in n.keywords):
+                return [(ast.Constant(value=k.arg), k.value) for k in n.keywords]
+            if len(n.args) == 1 and not n.keywords:
+                z = resolve(n.args[0])
+                if (isinstance(z, ast.Call) and builtin(z.func, "zip") and len(z.args) == 2
+                        and all(k.arg == "strict" for k in z.keywords)):
+                    ks, vs = resolve(z.args[0]), resolve(z.args[1])
+                    if not (isinstance(ks, (ast.Tuple, ast.List)) and isinstance(vs, (ast.Tuple, ast.List))):
+                        return [(None, None)]
+                    if any(isinstance(e, ast.Starred) for e in ks.elts + vs.elts) or len(ks.elts) != len(vs.elts):
+                        fail(n, "create_charges: dict(zip(keys, values)) with displays of different lengths")
+                    return list(zip(ks.elts, vs.elts))
+                return [(None, None)]
         return None
 
-    dicts = [n for n in ast.walk(fn) if isinstance(n, ast.Dict)]
     want = {"number": "particles_per_cluster", "position_ver": "init_ver_position", "position_hor": "init_hor_position"}
-    for d in dicts:
-        got = {}
-        for k, v in zip(d.keys, d.values):
-            if isinstance(k, ast.Constant) and k.value in want:
+    for d in ast.walk(fn):
+        pr = pairs(d)
+        if pr is None:
+            continue
+        got, opaque = {}, False
+        for k, v in pr:
+            k = resolve(k) if k is not None else None
+            if k is None or not isinstance(k, ast.Constant):
+                opaque = True                                             # a key the translator cannot read
+                continue
+            if k.value in want:
+                if k.value in got:
+                    fail(d, f"create_charges: column {k.value!r} is given twice")
                 got[k.value] = param_of(v)
         if got:
-            if got != want:
+            if got != want or opaque:
                 fail(d, "create_charges must feed number / position_ver / position_hor from their own parameters")
             return
     fail(fn, "create_charges: the column dictionary was not found")
@@ -875,7 +972,9 @@ class _Alias:
             return self.cls(n.value, d)
         if isinstance(n, ast.Starred):
             return self.cls(n.value, d)
-        if isinstance(n, (ast.BinOp, ast.UnaryOp, ast.Compare, ast.BoolOp, ast.Constant, ast.JoinedStr, ast.ListComp,
+        if isinstance(n, ast.BoolOp):              # `a or b` IS one of its operands
+            return _join([self.cls(v, d) for v in n.values])
+        if isinstance(n, (ast.BinOp, ast.UnaryOp, ast.Compare, ast.Constant, ast.JoinedStr, ast.ListComp,
                           ast.List, ast.Tuple, ast.Dict, ast.Set, ast.DictComp, ast.GeneratorExp)):
             return FRESH
         if isinstance(n, ast.IfExp):
@@ -1052,7 +1151,19 @@ def _bindings(fn: ast.FunctionDef, al: _Alias):
                 continue
             a = _self_attr(t, ("_array", "_frame"))
             if a is not None:
-                out.append((a, al.cls(val), n))
+                # `self.x = A if c else B`  ==  `if c: self.x = A` / `else: self.x = B`: one binding per branch
+                leaves, todo = [], [val]
+                while todo:
+                    v = todo.pop()
+                    if isinstance(v, ast.IfExp):
+                        todo += [v.orelse, v.body]
+                    else:
+                        leaves.append(v)
+                if len(leaves) == 1:
+                    out.append((a, al.cls(val), n))
+                else:
+                    for v in leaves:
+                        out.append((a, al.cls(v), ast.copy_location(ast.Assign(targets=[t], value=v), n)))
         if isinstance(n, ast.Call) and ast.unparse(n.func) == "setattr":
             fail(n, "setattr in class Charge")
     return out
@@ -1281,6 +1392,7 @@ def render(d: dict) -> str:
 
 
 def translate(repo: Path) -> str:
+    _REPO[0] = repo
     tree = parse(repo, CHARGE)
     gtree = parse(repo, GEOM)
     d = _df_to_array(tree)
